@@ -558,6 +558,10 @@ def prepare_numpy(ctx):
     return npdir
 
 
+class WorkerFailed(RuntimeError):
+    pass
+
+
 class NS:
     """One root namespace: texts -> files -> PyDSDL model -> generated package."""
 
@@ -590,7 +594,7 @@ class NS:
         p = subprocess.run([common.PY, str(pathlib.Path(__file__).resolve()), str(inp), str(outp)], capture_output=True, text=True,
                            env=env, timeout=1500)
         if p.returncode != 0:
-            raise RuntimeError(f"worker failed on {self.label}: {p.stderr[-1500:]}")
+            raise WorkerFailed(p.stderr[-1500:])
         data = json.loads(outp.read_text())
         return data["results"], data["numpy"]
 
@@ -981,6 +985,26 @@ def check_stored(ty, t):
     return None if t[0] == "o" and t[1] == ty["c"] else "class"
 
 
+def deep_ok(sch, ty, t):
+    """Is the object tree `t` a (deeply) well-typed value of `ty`?  Integer array elements need only fit the dtype."""
+    k = ty["k"]
+    if k == "C":
+        c = sch.classes[ty["c"]]
+        if t[0] != "o" or t[1] != ty["c"] or len(t[2]) != len(c["fields"]):
+            return False
+        if c["union"]:
+            sel = [i for i, s in enumerate(t[2]) if s[0] != "N"]
+            return len(sel) == 1 and deep_ok(sch, c["fields"][sel[0]]["ty"], t[2][sel[0]])
+        return all(deep_ok(sch, f["ty"], s) for f, s in zip(c["fields"], t[2]))
+    if k == "A":
+        if t[0] != "a" or t[1] != dtype_of(ty["e"]) or not _len_ok(ty, len(t[2])):
+            return False
+        if ty["e"]["k"] == "C":
+            return all(deep_ok(sch, ty["e"], x) for x in t[2])
+        return True
+    return check_stored(ty, t) is None
+
+
 def slots_of(t):
     return t[2] if t[0] == "o" else None
 
@@ -1006,6 +1030,7 @@ class NSCheck:
         self.sch = ns.schema
         self.gen = Gen(self.sch, ctx.rng)
         self.n_ops, self.n_rt, self.ops_len = n_ops, n_rt, ops_len
+        self.corpus_cases = []
 
     def replay_of(self, case, extra=None):
         r = {"namespace": self.ns.label, "files": self.ns.texts, "case": case}
@@ -1027,6 +1052,11 @@ class NSCheck:
             m = sch.models[c["id"]]
             consts = [] if c["kind"] == "service" else [k.name for k in m.constants]
             cases.append({"k": "model", "c": c["id"], "constants": consts})
+        for cc in self.corpus_cases:
+            c = next(c for c in sch.data_classes() if c["full"] == cc["class"])
+            fi = next(i for i, f in enumerate(c["fields"]) if f["name"] == cc["field"])
+            cases.append({"k": "set", "c": c["id"], "f": fi, "x": cc["x"]})
+            ctx.count("corpus-cases")
         for c in sch.data_classes():
             for fi, f in enumerate(c["fields"]):
                 for x in gen.cands(f["ty"], self.full):
@@ -1155,6 +1185,10 @@ class NSCheck:
         ctx.count("roundtrip-objects")
         rp = lambda: self.replay_of(case, {"object": otoks[:2000], "observed": {k: (v[:400] if isinstance(v, str) else v) for k, v in rt.items()}})  # noqa
         serializable = not rt["ser_o"].startswith("err")
+        if not deep_ok(sch, {"k": "C", "c": case["c"]}, parse(otoks)):
+            # an array of composites accepted elements of another class (not checked by the setter, see REPORT): not an object
+            ctx.count("roundtrip-skipped-ill-typed-object")
+            serializable = False
         if rt["tb_r"] != "ok":
             if serializable:
                 ctx.fail({"kind": "builtin-roundtrip", "case": "to_builtin-raises"}, "to_builtin raises on a serializable object: " + rt["tb_m"], rp())
@@ -1166,6 +1200,8 @@ class NSCheck:
         elif serializable and rt["ser_rt"] != rt["ser_o"]:
             ctx.fail({"kind": "builtin-roundtrip", "case": "bytes-differ"},
                      "serialize(update_from_builtin(C(), to_builtin(o))) != serialize(o)", rp())
+        if not deep_ok(sch, {"k": "C", "c": case["c"]}, parse(otoks)):
+            return []   # duck typing on foreign elements is outside the model
         ct = sch.ctokens(case["c"])
         reqs = [("tb", f"tb {ct} {otoks}", ("ok", rt["tb"]))]
         reqs.append(("ufb", f"ufb {ct} D {rt['tb']}", (rt["ufb_r"], rt.get("ufb", ""))))
@@ -1177,7 +1213,13 @@ class NSCheck:
             ctx.disagree("generate", {"namespace": self.ns.label, "files": self.ns.texts}, "nnvg generates Python", self.ns.gen_error)
             return
         cases = self.build_cases()
-        results, npver = self.ns.run_worker(ctx, self.npdir, cases, "p1")
+        try:
+            results, npver = self.ns.run_worker(ctx, self.npdir, cases, "p1")
+        except WorkerFailed as e:
+            ctx.fail({"kind": "generated-package-unusable"}, "the generated package cannot be imported / executed: " + str(e)[-300:],
+                     {"namespace": self.ns.label, "files": self.ns.texts, "stderr": str(e)})
+            self.dead = True
+            return
         ctx.extra["numpy"] = npver
         lines = self.driver_lines_1(cases)
         idx = [i for i, l in enumerate(lines) if l is not None]
@@ -1451,6 +1493,7 @@ def run(ctx):
     npdir = prepare_numpy(ctx)
     from . import dsdlgen
     spaces = [(label, files, True) for label, files, _ in corpus_namespaces()]
+    corpus_cases = {label: cs for label, _, cs in corpus_namespaces()}
     n_random, n_types = (1, 24) if ctx.quick else (8, 30)
     for i in range(n_random):
         g = dsdlgen.generate(ctx.rng, ctx.scratch / f"gen{i}", n_types=n_types, root_name=f"vns{i}")
@@ -1460,8 +1503,9 @@ def run(ctx):
     for label, files, full in spaces:
         ns = NS(ctx, label, files)
         chk = NSCheck(ctx, drv, ns, npdir, full, n_ops=(4 if ctx.quick else 12), n_rt=(3 if ctx.quick else 10), ops_len=(5 if ctx.quick else 9))
+        chk.corpus_cases = corpus_cases.get(label, [])
         chk.run()
-        if not ns.gen_error:
+        if not ns.gen_error and not getattr(chk, "dead", False):
             snan_probe(chk)
         ctx.extra["namespaces"].append({"label": label, "classes": len(ns.schema.classes), "files": len(files), "full_candidate_lists": full})
         if label == "base":
